@@ -50,7 +50,7 @@ def run(ctx):
     steps_f, free_f, race_f = ctx.path("steps.ndjson"), ctx.path("free.ndjson"), ctx.path("race.ndjson")
     ctx.harness(binary, ["-plans", pdir, "-out", steps_f, "-free", free_f, "-seed", ctx.seed,
                          "-rand", ctx.q(60, 1500), "-nfree", ctx.q(40, 500), "-nbulk", ctx.q(4, 24),
-                         "-race", race_f, "-nrace", ctx.q(12000, 150000),
+                         "-race", race_f, "-nrace", ctx.q(12000, 100000),
                          "-empty=%s" % ("true" if EMPTY_SENDS else "false")],
                 traces=[steps_f, race_f, free_f])
     steps = ctx.load_traces(steps_f)
@@ -96,7 +96,7 @@ def run(ctx):
              "64 KB per ms to the end of the stream and reports the intact blocks in order, the end kind and "
              "the tail; life-cycle orders on NewSession objects: Send / Close before Start, Close without "
              "Start, Close racing Start from two goroutines; a trace is one SessionMgr lifetime.  Race rounds: 12,000 (thorough "
-             "150,000) tiny sessions in batches of 128, each with its reader parked in Read and its writer parked "
+             "100,000) tiny sessions in batches of 128, each with its reader parked in Read and its writer parked "
              "in Write, ended by ONE event that fails both calls at once (reset / peer close / both deadlines; one "
              "channel both wait on, in half of them a spin barrier before they return), no driver step between the "
              "two exits; per session OnExit calls and closed, per batch count before / while alive / after and "
